@@ -7,7 +7,9 @@
 (***************************************************************************)
 EXTENDS Naturals, Sequences, FiniteSets, TLC, Json
 
-Networks == {"mainnet", "bitcoin", "signet", "testnet", "testnet4", "regtest", "foonet"}
+(* besides the names the engine knows: an unknown name, and two names that differ from known ones only in letter case (the   *)
+(* engine matches names verbatim, so "Mainnet" runs under other rules than "mainnet": different strings are different networks) *)
+Networks == {"mainnet", "bitcoin", "signet", "testnet", "testnet4", "regtest", "foonet", "Mainnet", "REGTEST"}
 Traces   == {TRUE, FALSE}
 Rows     == {"DB_VERSION", "PROTOCOL_VERSION", "BITCOIN_RPC_NETWORK", "EVM_RECORD_TRACES"}
 Tampers  == {"none"} \cup {"del_" \o r : r \in Rows} \cup {"alt_" \o r : r \in Rows}
